@@ -339,3 +339,17 @@ Theorem C01_closure_all_roots :
     forall r n, In r (c_root c :: c_xroots c) -> reach g r n -> has g (dst st) n = true.
 Proof. exact closure_all_roots. Qed.
 Print Assumptions C01_closure_all_roots.
+
+(* removeForeignLayers, modelled as the code writes it (in-place compaction with a read and a write
+   index; run against the real function on every generated successor list), is the filter that the
+   transition system's [succ'] uses -- so "foreign layers excepted" is exactly IsForeignLayer's table *)
+Theorem C01_remove_foreign_layers :
+  forall (foreign : node -> bool) (descs : list node),
+    remove_foreign_inplace foreign descs = filter (fun x => negb (foreign x)) descs.
+Proof. exact remove_foreign_inplace_is_filter. Qed.
+Print Assumptions C01_remove_foreign_layers.
+
+Theorem C01_succ_is_remove_foreign :
+  forall (g : graph) (n : node), succ' g n = remove_foreign_inplace (g_foreign g) (g_succ g n).
+Proof. exact succ'_is_remove_foreign. Qed.
+Print Assumptions C01_succ_is_remove_foreign.
